@@ -2,4 +2,4 @@
 
 package interp
 
-func verifPoint(int) {}
+func verifPoint(int, <-chan struct{}) {}
